@@ -18,20 +18,24 @@ from ..source import AnalysisError
 PS = "pandapipes.pf.pipeflow_setup"
 
 EXPLANATION = (
-    "init_options (with _iteration_check and _mode_check) is interpreted abstractly: the three layers are "
-    "dictionaries of provenance tokens (default:k, user:k, call:k); for every option key of default_options, for "
-    "`iter`, for an unknown key and for every presence pattern of the key in the three layers (and, for `iter`, every "
-    "presence pattern of the three stage-specific limits in the same and the other layer) the resolved net._options "
-    "is compared with an executable model of the documented semantics: call > user > default; `iter` fills the "
-    "stage limits of its own layer only where that layer does not set them; reuse_internal_data only together with "
-    "only_update_hydraulic_matrix; mode 'all' -> 'sequential'; numba falls back when unavailable; fluid name added; "
-    "interactive_plotting and t_start removed; everything else carried through unchanged. The enumeration is "
-    "exhaustive over these patterns. After every run the module-level default_options, net.user_pf_options and the "
-    "kwargs dictionary are compared with pristine copies (no mutation). The docstring bullets of init_options are "
-    "compared with default_options, and every option name read through get_net_option(s)/options[...] in the package "
-    "must have a default. (R14.8) set_user_pf_options stores exactly the keyword arguments it is given and hands them to no option-resolving function "
-    "before storing (shorthands are resolved per layer at merge time, so the order of storing cannot matter). (R14.7) every call site of init_options in the package hands its own **kwargs over unchanged, so an "
-    "option given in the call -- including the value None and unknown options -- reaches the merge.")
+    'init_options (with _iteration_check and _mode_check) is interpreted abstractly: the three layers are dictionaries of'
+    ' provenance tokens (default:k, user:k, call:k); for every option key of default_options, for `iter`, for an unknown '
+    'key and for every presence pattern of the key in the three layers (and, for `iter`, every presence pattern of the '
+    'three stage-specific limits in the same and the other layer) the resolved net._options is compared with an '
+    'executable model of the documented semantics: call > user > default; `iter` fills the stage limits of its own layer '
+    'only where that layer does not set them; reuse_internal_data only together with only_update_hydraulic_matrix; mode '
+    "'all' -> 'sequential'; numba falls back when unavailable; fluid name added; interactive_plotting and t_start "
+    'removed; everything else carried through unchanged. The enumeration is exhaustive over these patterns. After every '
+    'run the module-level default_options, net.user_pf_options and the kwargs dictionary are compared with pristine '
+    'copies (no mutation). The docstring bullets of init_options are compared with default_options, and every option name'
+    ' read through get_net_option(s)/options[...] in the package must have a default. (R14.8) set_user_pf_options stores '
+    'exactly the keyword arguments it is given and hands them to no option-resolving function before storing (shorthands '
+    'are resolved per layer at merge time, so the order of storing cannot matter). (R14.7) every call site of '
+    'init_options in the package hands its own **kwargs over unchanged, so an option given in the call -- including the '
+    'value None and unknown options -- reaches the merge. (R14.9, shared with C05 R5.4) each stage (hydraulics, '
+    'heat_transfer, bidirectional) hands newton_raphson the iteration-limit option of its own name (max_iter_hyd / '
+    'max_iter_therm / max_iter_bidirect), so the value that won the precedence for that key is the one that bounds the '
+    'stage.')
 ASSUMPTIONS = ["copy.deepcopy, dict displays with ** and dict methods have their Python semantics",
                "get_fluid(net).name does not depend on the options"]
 TECHNIQUE = "exhaustive abstract interpretation of the option merge over provenance tokens, compared with an executable model of the documentation; writer/reader table agreement"
